@@ -29,7 +29,10 @@ def scenarios(ctx):
         S = [s[:6] + (1,) for s in S[:8]] + []
         S[0] = S[0][:6] + (2,)
     else:
-        S += [("abc", "acb", n0, 3, 1, 3, 2), (None, "abcd", zd, -1, 0, 0, 2), ("d", "dad", z0, 1, 0, 1, 1)]
+        S += [("abc", "acb", n0, 3, 1, 3, 2), (None, "abcd", zd, -1, 0, 0, 2), ("d", "dad", z0, 1, 0, 1, 1),
+              # updates that need several requests, each answered with multipart/byteranges under its own boundary
+              ("a", "ababababa", n0, 2, 0, 0, 1), ("a", "ababababa", z0, 2, 1, 0, 1), ("ac", "abcbdbcba", n0, 3, 1, 5, 1)]
+        S[3] = S[3][:6] + (2,)
     words = sorted({(w, c.name()) for a, b, c, *_ in S for w in (a, b) if w is not None})
     cfgs = {c.name(): c for _, _, c, *_ in S}
     files = dict(zip(words, universe.lib_files([(w, cfgs[cn]) for w, cn in words], ctx.seed)))
